@@ -1,7 +1,9 @@
 package logqlmetric
 
 import (
+	"cmp"
 	"regexp"
+	"slices"
 
 	"github.com/cespare/xxhash/v2"
 
@@ -40,3 +42,16 @@ func (l *emptyLabels) Without(_ ...logql.Label) AggregatedLabels                
 func (l *emptyLabels) Key() GroupingKey                                          { return emptyLabelsKey }
 func (l *emptyLabels) Replace(_, _, _ string, _ *regexp.Regexp) AggregatedLabels { return l }
 func (l *emptyLabels) AsLokiAPI() lokiapi.LabelSet                               { return lokiapi.LabelSet{} }
+
+// sortedKeys returns keys of the map in ascending order.
+//
+// Iterators emit series in this order, so result (order of float additions,
+// choice between equal samples) does not depend on map iteration order.
+func sortedKeys[K cmp.Ordered, V any](m map[K]V) []K {
+	keys := make([]K, 0, len(m))
+	for k := range m {
+		keys = append(keys, k)
+	}
+	slices.Sort(keys)
+	return keys
+}
